@@ -987,6 +987,10 @@ class Interp:
             return min(self.ev(e['args'][0], env), self.ev(e['args'][1], env))
         if c.endswith('cmp::max') and len(e['args']) == 2:
             return max(self.ev(e['args'][0], env), self.ev(e['args'][1], env))
+        if c.endswith(('convert::From::from', 'Vec::<T>::from', 'to_vec')) and len(e['args']) == 1 and (e.get('ty') or '').replace('std::vec::', '').replace('alloc::vec::', '').startswith('Vec<'):
+            v_ = self.ev(e['args'][0], env)
+            if isinstance(v_, list):
+                return [deep_clone(x) for x in v_]      # Vec::from(slice / array / vec)
         if c.endswith('from_iter') and len(e['args']) == 1:
             v = self.ev(e['args'][0], env)
             return dict(v) if 'Map' in (e.get('ty') or '') else list(v)
@@ -1368,6 +1372,12 @@ class Interp:
                     if not (isinstance(i, int) and 0 <= i < len(recv)):
                         raise NoEval('remove out of range')
                     return recv.pop(i)
+                if nm == 'retain' and len(args) == 1:
+                    f_ = A()
+                    if not callable(f_):
+                        raise NoEval('retain with %r' % (f_,))
+                    recv[:] = [x for x in list(recv) if f_(x)]
+                    return ()
                 if nm == 'swap_remove':
                     i = A()
                     if not (isinstance(i, int) and 0 <= i < len(recv)):
@@ -1537,6 +1547,11 @@ class Interp:
                 if nv_ is not cur_:
                     cur_[:] = list(nv_)
                 return
+        if deref_ and l.get('k') == 'Path' and l['res'].get('k') == 'Local' and hasattr(env.get(l['res']['id']), 'mr_assign'):
+            # `*r = value` / `*r op= value` through a reference to a mutable host value: the referent changes, not the binding
+            cur_ = env[l['res']['id']]
+            cur_.mr_assign(v if op is None else op(cur_, v))
+            return
         if l.get('k') == 'Path' and l['res'].get('k') == 'Local':
             i = l['res']['id']
             env[i] = v if op is None else op(env[i], v)
